@@ -25,8 +25,9 @@ def main():
         def prof(frame, event, arg):
             if event == "call":
                 fn = frame.f_code.co_filename
-                if fn.startswith("/repo/"):
-                    funcs.add(fn[len("/repo/"):] + ":" + frame.f_code.co_qualname)
+                root = os.environ.get("VERIF_REPO", "/repo") + "/"
+                if fn.startswith(root):
+                    funcs.add(fn[len(root):] + ":" + frame.f_code.co_qualname)
         sys.setprofile(prof)
     try:
         ok = bool(body(*args))
